@@ -511,12 +511,13 @@ def explore(stream, n, maxlen, corpus=(), budget=75.0, n_plugin=0, plugin_corpus
     cases = []; lines = []; spans = []
     rp = rng.make(stream + '-plugin')
     tp = time.time()
+    t_all = tp
     for i in range(len(plugin_corpus) + n_plugin):
         ops = plugin_corpus[i] if i < len(plugin_corpus) else c18_plugin.gen_ops(rp)
         c, ml = run_plugin_case(ops, 'plugin-corpus' if i < len(plugin_corpus) else 'plugin')
         spans.append((c, len(lines), len(ml), 0))
         lines.extend(ml); cases.append(c)
-        if time.time() - tp > budget * 0.5 or len([x for x in cases if x.oracle_ok is False]) >= 10:
+        if time.time() - tp > budget * 0.4 or len([x for x in cases if x.oracle_ok is False]) >= 10:
             break
     def add(P, ops, kind):
         c, ml = run_case(P, ops, kind)
@@ -532,7 +533,7 @@ def explore(stream, n, maxlen, corpus=(), budget=75.0, n_plugin=0, plugin_corpus
         if cases[-1].oracle_ok is False:
             bad += 1
         # a broken scheduler can make every case slow: a few failing inputs are enough
-        if bad >= 25 or time.time() - t0 > budget:
+        if bad >= 25 or time.time() - t_all > budget:
             break
     return cases, lines, spans
 
@@ -662,7 +663,7 @@ def shrink_case(c):
 def run(ctx):
     build = leanbuild.ensure(PROPERTY, THEOREMS, thorough=ctx.thorough, extractors=[])
     n, maxlen = (80000, 60) if ctx.thorough else (4000, 40)
-    cases, lines, spans = explore('c18', n, maxlen, load_corpus(), budget=(840.0 if ctx.thorough else 75.0),
+    cases, lines, spans = explore('c18', n, maxlen, load_corpus(), budget=(780.0 if ctx.thorough else 75.0),
                                   n_plugin=(2500 if ctx.thorough else 220), plugin_corpus=load_plugin_corpus())
     if build.driver_ok:
         fill_model(cases, lines, spans)
